@@ -76,7 +76,7 @@ def structural(prop, extra):
         for o in fr:
             # FRAME (the key covers what is read) and GUARD / MONO (every mutator moves the counters of what it writes)
             # only together exclude a stale value
-            if o["kind"] in ("FRAME", "GUARD", "MONO") and o["id"].split("/")[2].split(".")[0] in FRAME_FAMILY[prop]:
+            if o["kind"] in ("FRAME", "GUARD", "MONO", "MRO") and o["id"].split("/")[2].split(".")[0].split(":")[0] in FRAME_FAMILY[prop]:
                 o2 = dict(o)
                 o2["id"] = o["id"].replace("C01/", prop + "/", 1)
                 out.append(o2)
@@ -308,6 +308,11 @@ def inplace_obligations():
     from pvc.frame_obl import union
     out = []
     seen = set()
+    if prog.to_cy_fresh:
+        # what the alias analysis relies on for every `x = to_cy(self.<field>, T)`; when it does not hold the analysis
+        # treats to_cy as returning its argument and the MODIFIES obligations below decide
+        out.append(res("C06/TOCY/core._ext.types.to_cy returns a copy", "MODIFIES", "proved", "ast scan of core/_ext/types.py",
+                       prog.to_cy_why))
     for K in sorted(prog.classes):
         if not prog.is_cached_class(K):
             continue
